@@ -1,41 +1,21 @@
 /-
   C16 — sparse-matrix operations agree with their dense mathematical meaning.
-  Property theorems only; helper lemmas live in `ClarabelProofs/Lemmas`.
+  Property theorems only; helper lemmas live in `ClarabelProofs/Lemmas/Csc*.lean`
+  (`Canonical`, `NoBadAdjacent` are defined in `Lemmas/CscBasic.lean`, namespace
+  `Clarabel.C16`).
+
+  Classes: [S] structural — holds for every scalar type, `Float` included;
+           [F] exact arithmetic (commutative ring / ordered field).
 -/
-import ClarabelModel.Csc
+import ClarabelProofs.Lemmas.CscBasic
+import ClarabelProofs.Lemmas.CscSort
+import ClarabelProofs.Lemmas.CscGemv
+import ClarabelProofs.Lemmas.CscEntry
 
 namespace Clarabel.C16
 open Clarabel Csc
 
 variable {α : Type}
-
-/-- no adjacent pair of the list satisfies `bad` -/
-def NoBadAdjacent (bad : Nat → Nat → Prop) : List Nat → Prop
-  | a :: b :: rest => ¬ bad a b ∧ NoBadAdjacent bad (b :: rest)
-  | _ => True
-
-theorem anyAdjacent_false_iff (bad : Nat → Nat → Bool) (l : List Nat) :
-    anyAdjacent bad l = false ↔ NoBadAdjacent (fun a b => bad a b = true) l := by
-  induction l with
-  | nil => simp [anyAdjacent, NoBadAdjacent]
-  | cons a t ih =>
-    cases t with
-    | nil => simp [anyAdjacent, NoBadAdjacent]
-    | cons b rest =>
-      simp only [anyAdjacent, NoBadAdjacent, Bool.or_eq_false_iff]
-      rw [ih]
-      simp
-
-/-- The canonical encodings, exactly as the property states them: consistent lengths,
-`colptr` monotone with last entry `nnz`, row indices strictly increasing inside every
-column and all `< m`.  (`colptr[0] = 0` is *not* demanded — neither does the code.) -/
-structure Canonical (M : Csc α) : Prop where
-  len_eq : M.rowval.size = M.nzval.size
-  colptr_size : M.colptr.size = M.n + 1
-  colptr_last : M.colptr.getD M.n 0 = M.rowval.size
-  colptr_mono : NoBadAdjacent (fun a b => a > b) M.colptr.toList
-  rows_sorted : ∀ j, j < M.n → NoBadAdjacent (fun a b => a ≥ b) (M.colRows j)
-  rows_bound : ∀ r ∈ M.rowval.toList, r < M.m
 
 /-- [S] `check_format` accepts exactly the canonical encodings. -/
 theorem check_format_iff (M : Csc α) : M.checkFormat = .ok () ↔ Canonical M := by
@@ -93,5 +73,560 @@ theorem check_format_iff (M : Csc α) : M.checkFormat = .ok () ↔ Canonical M :
 
 /-- non-vacuity: a concrete 3×2 matrix is canonical and accepted. -/
 example : (⟨3, 2, #[0, 2, 4], #[0, 1, 0, 2], #[1, 3, 2, 4]⟩ : Csc Nat).checkFormat = .ok () := by rfl
+
+/-- the concrete matrix used by the non-vacuity examples below -/
+def exM : Csc Int := ⟨3, 3, #[0, 2, 3, 5], #[0, 2, 1, 0, 2], #[1, 3, 2, 4, 5]⟩
+theorem exM_canonical : Canonical exM := (check_format_iff exM).mp (by rfl)
+
+/-! ### select_rows (used by C09) -/
+
+/-- [S] `select_rows` on a canonical matrix succeeds, returns a canonical matrix with
+`count keep` rows and the same columns, and row `rankBefore keep i` of the result is row
+`i` of the input for every kept `i`: the stored values at each position are the same list
+(hence the same dense value, for every scalar type). -/
+theorem selectRows_spec [Add α] [OfNat α 0] (M : Csc α) (keep : Array Bool)
+    (hM : Canonical M) (hk : keep.size = M.m) :
+    ∃ R, M.selectRows keep = .ok R ∧ Canonical R ∧
+      R.m = (keep.toList.filter id).length ∧ R.n = M.n ∧
+      ∀ i j, i < M.m → j < M.n → keep.getD i false = true →
+        R.toDense (rankBefore keep i) j = M.toDense i j := by
+  have hrows : (M.rowval.toList.all (fun r => decide (r < M.m))) = true :=
+    List.all_eq_true.mpr (fun r hr => decide_eq_true (hM.rows_bound r hr))
+  refine ⟨ofCols (keep.toList.filter id).length M.n ((List.range M.n).map (fun j =>
+    ((M.col j).filter (fun e => keep.getD e.1 false)).map (fun e => (rankBefore keep e.1, e.2)))),
+    ?_, ?_, rfl, rfl, ?_⟩
+  · unfold selectRows
+    simp only [hk, bne_self_eq_false, Bool.false_eq_true, ↓reduceIte, hrows, Bool.not_true]
+    rfl
+  · apply canonical_ofCols
+    · simp
+    · intro c hc
+      simp only [List.mem_map, List.mem_range] at hc
+      obtain ⟨j, hj, rfl⟩ := hc
+      obtain ⟨hs, hb⟩ := colOK_of_canonical hM j hj
+      constructor
+      · rw [List.map_map, List.pairwise_map]
+        have hs' : (M.col j).Pairwise (fun a b => a.1 < b.1) := by
+          rwa [List.pairwise_map] at hs
+        refine (hs'.filter _).imp_of_mem ?_
+        intro a b ha hb' hab
+        simp only [List.mem_filter] at ha hb'
+        exact rankBefore_lt_of_lt keep a.1 b.1 hab (by have := hb b hb'.1; omega) ha.2
+      · intro e he
+        simp only [List.mem_map, List.mem_filter] at he
+        obtain ⟨e', ⟨he', hke⟩, rfl⟩ := he
+        exact rankBefore_lt_count keep e'.1 (by have := hb e' he'; omega) hke
+  · intro i j hi hj hki
+    rw [toDense_eq_foldl_colVals, toDense_eq_foldl_colVals, col_ofCols _ _ _ j (by simpa using hj)]
+    simp only [List.getElem_map, List.getElem_range]
+    rw [colVals_map_filter (M.col j) (fun r => keep.getD r false) (rankBefore keep) i hki]
+    intro e he hke
+    exact rankBefore_inj keep e.1 i (by have := (colOK_of_canonical hM j hj).2 e he; omega) (by omega) hke hki
+
+/-- [S] every row of the `select_rows` result is the image of a kept row. -/
+theorem selectRows_rows_onto (keep : Array Bool) (r : Nat) (hr : r < (keep.toList.filter id).length) :
+    ∃ i, i < keep.size ∧ keep.getD i false = true ∧ rankBefore keep i = r :=
+  rankBefore_surj keep r hr
+
+/-- non-vacuity of `selectRows_spec` -/
+example : ∃ R, exM.selectRows #[true, false, true] = .ok R ∧ Canonical R :=
+  let ⟨R, h1, h2, _⟩ := selectRows_spec exM #[true, false, true] exM_canonical rfl
+  ⟨R, h1, h2⟩
+
+
+/-! ### to_triu (used by C05) -/
+
+/-- [S] `to_triu` of a canonical square matrix succeeds, returns a canonical upper
+triangular matrix of the same shape whose entries on and above the diagonal are those of
+the input (same stored values, any scalar type) and which stores nothing below it. -/
+theorem toTriu_spec [Add α] [OfNat α 0] (M : Csc α) (hM : Canonical M) (hsq : M.m = M.n) :
+    ∃ R, M.toTriu = .ok R ∧ Canonical R ∧ R.m = M.m ∧ R.n = M.n ∧ R.isTriu = true ∧
+      ∀ i j, j < M.n → R.toDense i j = if i ≤ j then M.toDense i j else 0 := by
+  have hcols : (List.range M.n).map (fun j =>
+      (M.col j).take (((M.col j).filter (fun e => decide (e.1 ≤ j))).length)) =
+      (List.range M.n).map (fun j => (M.col j).filter (fun e => decide (e.1 ≤ j))) := by
+    apply List.map_congr_left
+    intro j hj
+    exact take_filter_length_of_sorted (M.col j) (fun r => decide (r ≤ j))
+      (colOK_of_canonical hM j (List.mem_range.mp hj)).1
+      (fun a b hab hb => by simp only [decide_eq_true_eq] at hb ⊢; omega)
+  refine ⟨ofCols M.m M.n ((List.range M.n).map (fun j =>
+    (M.col j).filter (fun e => decide (e.1 ≤ j)))), ?_, ?_, rfl, rfl, ?_, ?_⟩
+  · unfold toTriu
+    simp only [hsq, bne_self_eq_false, Bool.false_eq_true, ↓reduceIte]
+    rw [← hcols, ← hsq]
+    rfl
+  · apply canonical_ofCols
+    · simp
+    · intro c hc
+      simp only [List.mem_map, List.mem_range] at hc
+      obtain ⟨j, hj, rfl⟩ := hc
+      exact colOK_filter _ _ _ (colOK_of_canonical hM j hj)
+  · unfold isTriu
+    simp only [ofCols_n, List.all_eq_true, List.mem_range, decide_eq_true_eq]
+    intro j hj r hr
+    rw [colRows_ofCols _ _ _ j (by simpa using hj)] at hr
+    simp only [List.getElem_map, List.getElem_range, List.mem_map, List.mem_filter,
+      decide_eq_true_eq] at hr
+    obtain ⟨e, ⟨_, he⟩, rfl⟩ := hr
+    exact he
+  · intro i j hj
+    rw [toDense_eq_foldl_colVals, toDense_eq_foldl_colVals, col_ofCols _ _ _ j (by simpa using hj)]
+    simp only [List.getElem_map, List.getElem_range]
+    rw [colVals_filter (M.col j) (fun r => decide (r ≤ j)) i]
+    by_cases hij : i ≤ j <;> simp [hij]
+
+/-- non-vacuity of `toTriu_spec` -/
+example : ∃ R, exM.toTriu = .ok R ∧ Canonical R ∧ R.isTriu = true :=
+  let ⟨R, h1, h2, _, _, h3, _⟩ := toTriu_spec exM exM_canonical rfl
+  ⟨R, h1, h2, h3⟩
+
+/-! ### transpose -/
+
+/-- [S] the dense meaning of `transpose` (`From<Adjoint>`): entry `(j,i)` of the result
+holds exactly the values stored at `(i,j)` of the input, for any well-dimensioned input
+and any scalar type. -/
+theorem transpose_dense [Add α] [OfNat α 0] (M : Csc α) (i j : Nat) (hi : i < M.m) (hj : j < M.n) :
+    M.transpose.toDense j i = M.toDense i j := by
+  rw [toDense_eq_foldl_colVals, toDense_eq_foldl_colVals]
+  unfold transpose
+  rw [col_ofCols _ _ _ i (by simpa using hi)]
+  simp only [List.getElem_map, List.getElem_range]
+  rw [colVals_flatten, List.map_map]
+  rw [flatten_map_range_single M.n j _ hj]
+  · simp only [Function.comp]
+    unfold colVals
+    rw [List.filter_map, List.map_map]
+    have : ((M.col j).filter (fun e => e.1 == i)).filter ((fun e : Nat × α => e.1 == j) ∘ fun e => (j, e.2))
+        = (M.col j).filter (fun e => e.1 == i) := by
+      rw [List.filter_eq_self]; intro a _; simp
+    rw [this]
+    rfl
+  · intro k _ hkj
+    simp only [Function.comp]
+    apply colVals_eq_nil_of_not_mem
+    intro e he
+    simp only [List.mem_map] at he
+    obtain ⟨_, _, rfl⟩ := he
+    exact hkj
+
+/-- [S] `transpose` maps canonical matrices to canonical matrices of the swapped shape. -/
+theorem transpose_canonical (M : Csc α) (hM : Canonical M) :
+    Canonical M.transpose ∧ M.transpose.m = M.n ∧ M.transpose.n = M.m := by
+  refine ⟨?_, rfl, rfl⟩
+  unfold transpose
+  apply canonical_ofCols
+  · simp
+  · intro c hc
+    simp only [List.mem_map, List.mem_range] at hc
+    obtain ⟨i, _, rfl⟩ := hc
+    constructor
+    · rw [List.map_flatten, List.map_map, List.pairwise_flatten]
+      constructor
+      · intro l hl
+        simp only [List.mem_map, List.mem_range, Function.comp] at hl
+        obtain ⟨j, hj, rfl⟩ := hl
+        have hlen := filter_row_length_le_one (M.col j) i (colOK_of_canonical hM j hj).1
+        match hf : (M.col j).filter (fun e => e.1 == i) with
+        | [] => rw [hf]; simp
+        | [_] => rw [hf]; simp
+        | _ :: _ :: _ => rw [hf] at hlen; simp at hlen
+      · rw [List.pairwise_map]
+        refine List.Pairwise.imp ?_ List.pairwise_lt_range
+        intro a b hab x hx y hy
+        simp only [Function.comp, List.mem_map] at hx hy
+        obtain ⟨_, ⟨_, _, rfl⟩, rfl⟩ := hx
+        obtain ⟨_, ⟨_, _, rfl⟩, rfl⟩ := hy
+        exact hab
+    · intro e he
+      simp only [List.mem_flatten, List.mem_map, List.mem_range] at he
+      obtain ⟨_, ⟨j, hj, rfl⟩, he⟩ := he
+      simp only [List.mem_map] at he
+      obtain ⟨_, _, rfl⟩ := he
+      exact hj
+
+/-- non-vacuity of `transpose_canonical` / `transpose_dense` -/
+example : Canonical exM.transpose ∧ exM.transpose.toDense 2 0 = exM.toDense 0 2 :=
+  ⟨(transpose_canonical exM exM_canonical).1, transpose_dense exM 0 2 (by decide) (by decide)⟩
+
+
+/-! ### canonicalize = deduplicate ∘ sort_indices, new_from_triplets -/
+
+/-- [S] `canonicalize` fails exactly when `check_dimensions` does, with the same error. -/
+theorem canonicalize_error_iff [Add α] (M : Csc α) (e : FormatError) :
+    M.canonicalize = .error e ↔ M.checkDimensions = .error e := by
+  unfold canonicalize
+  cases h : M.checkDimensions with
+  | error e' => simp
+  | ok u => simp
+
+/-- [F] (additive monoid: duplicates are added up) `canonicalize` of a dimensionally
+consistent encoding with in-range rows — columns possibly unsorted and with repeated
+entries — succeeds and returns a canonical matrix of the same shape and the same dense
+meaning. -/
+theorem canonicalize_spec [AddMonoid α] (M : Csc α) (hd : M.checkDimensions = .ok ())
+    (hb : ∀ r ∈ M.rowval.toList, r < M.m) :
+    ∃ R, M.canonicalize = .ok R ∧ Canonical R ∧ R.m = M.m ∧ R.n = M.n ∧
+      ∀ i j, j < M.n → R.toDense i j = M.toDense i j := by
+  refine ⟨M.sortIndices.deduplicate, ?_, ?_, rfl, rfl, ?_⟩
+  · unfold canonicalize; rw [hd]
+  · unfold deduplicate cols
+    apply canonical_ofCols
+    · simp [sortIndices]
+    · intro c hc
+      simp only [List.mem_map, List.mem_range] at hc
+      obtain ⟨_, ⟨j, hj, rfl⟩, rfl⟩ := hc
+      have hj' : j < M.n := hj
+      rw [col_sortIndices M j hj']
+      exact colOK_dedupe_sort M.m (M.col j) (fun e he => hb _ (mem_col_rowval M j e he))
+  · intro i j hj
+    rw [toDense_eq_sum_colVals, toDense_eq_sum_colVals,
+      col_deduplicate _ j (by simpa [sortIndices] using hj), col_sortIndices M j hj,
+      colVals_sum_dedupeRows, colVals_sortByRow]
+
+/-- non-vacuity of `canonicalize_spec`: an unsorted column with a duplicate -/
+example : ∃ R, (⟨2, 1, #[0, 3], #[1, 0, 1], #[5, 7, 2]⟩ : Csc Int).canonicalize = .ok R ∧
+    Canonical R ∧ R.toDense 1 0 = 7 := by
+  obtain ⟨R, h1, h2, _, _, h3⟩ := canonicalize_spec (⟨2, 1, #[0, 3], #[1, 0, 1], #[5, 7, 2]⟩ : Csc Int)
+    (by rfl) (by decide)
+  exact ⟨R, h1, h2, by rw [h3 1 0 (by decide)]; rfl⟩
+
+/-- [F] (additive monoid) `new_from_triplets` on in-range triplets — in any order, with
+repetitions — succeeds and returns a canonical `m × n` matrix whose `(i,j)` entry is the
+sum of the values of all triplets at `(i,j)`. -/
+theorem newFromTriplets_spec [AddMonoid α] (m n : Nat) (I J : Array Nat) (V : Array α)
+    (hIJ : I.size = J.size) (hIV : I.size = V.size)
+    (hJ : ∀ c ∈ J.toList, c < n) (hI : ∀ r ∈ I.toList, r < m) :
+    ∃ R, newFromTriplets m n I J V = .ok R ∧ Canonical R ∧ R.m = m ∧ R.n = n ∧
+      ∀ i j, j < n → R.toDense i j =
+        (((I.toList.zip (J.toList.zip V.toList)).filter
+          (fun t => t.1 == i && t.2.1 == j)).map (·.2.2)).sum := by
+  have hJ' : (J.toList.any (fun c => decide (c > n))) = false := by
+    rw [List.any_eq_false]
+    intro c hc
+    have := hJ c hc
+    simp; omega
+  refine ⟨ofCols m n ((List.range n).map (fun c => dedupeRows (sortByRow
+    (((I.toList.zip (J.toList.zip V.toList)).filter (fun t => t.2.1 == c)).map
+      (fun t => (t.1, t.2.2)))))), ?_, ?_, rfl, rfl, ?_⟩
+  · unfold newFromTriplets
+    simp only [hIJ, ← hIV, bne_self_eq_false, Bool.or_self, Bool.false_eq_true, ↓reduceIte, hJ']
+    rfl
+  · apply canonical_ofCols
+    · simp
+    · intro c hc
+      simp only [List.mem_map, List.mem_range] at hc
+      obtain ⟨j, _, rfl⟩ := hc
+      apply colOK_dedupe_sort
+      intro e he
+      simp only [List.mem_map, List.mem_filter] at he
+      obtain ⟨t, ⟨ht, _⟩, rfl⟩ := he
+      exact hI _ (List.of_mem_zip ht).1
+  · intro i j hj
+    rw [toDense_eq_sum_colVals, col_ofCols _ _ _ j (by simpa using hj)]
+    simp only [List.getElem_map, List.getElem_range]
+    rw [colVals_sum_dedupeRows, colVals_sortByRow]
+    unfold colVals
+    rw [List.filter_map, List.filter_filter, List.map_map]
+    rfl
+
+/-- non-vacuity of `newFromTriplets_spec`: unsorted triplets with a repeated position -/
+example : ∃ R, newFromTriplets 2 2 #[1, 0, 1] #[1, 0, 1] #[(5 : Int), 7, 2] = .ok R ∧
+    Canonical R ∧ R.toDense 1 1 = 7 := by
+  obtain ⟨R, h1, h2, _, _, h3⟩ := newFromTriplets_spec 2 2 #[1, 0, 1] #[1, 0, 1] #[(5 : Int), 7, 2]
+    rfl rfl (by decide) (by decide)
+  exact ⟨R, h1, h2, by rw [h3 1 1 (by decide)]; rfl⟩
+
+
+/-! ### gemv -/
+
+/-- [F] (commutative ring) `gemv` without transpose — all four `b` paths and all four `a`
+paths — on a canonical matrix and vectors of matching length does not panic and returns
+`b·y + a·A·x`, with `A` read through its dense meaning. -/
+theorem gemvN_spec [CommRing α] [DecidableEq α] (A : Csc α) (y x : Array α) (a b : α)
+    (hA : Canonical A) (hx : x.size = A.n) (hy : y.size = A.m) :
+    ∃ y', A.gemvN y x a b = .ok y' ∧ y'.size = A.m ∧
+      ∀ i, i < A.m → y'[i]? =
+        some (b * y.getD i 0 + a * ∑ j ∈ Finset.range A.n, A.toDense i j * x.getD j 0) := by
+  have hsz : (applyB b y).size = A.m := by rw [applyB_size, hy]
+  have hget : ∀ i, i < A.m → (applyB b y)[i]? = some (b * y.getD i 0) := by
+    intro i hi
+    rw [applyB_get b y i (by omega), Array.getD_eq_getD_getElem?,
+      Array.getElem?_eq_getElem (by omega)]
+    rfl
+  have hdense : ∀ i, (∑ j ∈ Finset.range A.n, (colVals (A.col j) i).sum * x.getD j 0)
+      = ∑ j ∈ Finset.range A.n, A.toDense i j * x.getD j 0 := by
+    intro i
+    apply Finset.sum_congr rfl
+    intro j _
+    rw [toDense_eq_sum_colVals]
+  have hbound : ∀ (g : α → α → α), ∀ e ∈ gemvTerms A x g, e.1 < (applyB b y).size := by
+    intro g e he
+    rw [gemvTerms_eq A x g 0] at he
+    simp only [List.mem_flatten, List.mem_map, List.mem_range] at he
+    obtain ⟨_, ⟨j, hj, rfl⟩, he⟩ := he
+    simp only [List.mem_map] at he
+    obtain ⟨e', he', rfl⟩ := he
+    rw [hsz]
+    exact (colOK_of_canonical hA j (by omega)).2 e' he'
+  unfold gemvN
+  by_cases ha0 : a = 0
+  · refine ⟨applyB b y, by simp [ha0]; rfl, hsz, fun i hi => ?_⟩
+    rw [hget i hi, ha0]; simp
+  · have ha0' : (a == 0) = false := by simpa using ha0
+    simp only [ha0', Bool.false_eq_true, ↓reduceIte, nzvalMatchesColptr_of_canonical hA, hx,
+      bne_self_eq_false]
+    by_cases ha1 : a = 1
+    · simp only [ha1, beq_self_eq_true, ↓reduceIte]
+      obtain ⟨y', h1, h2, h3⟩ := scatter_spec (fun yi t => yi + t) (applyB b y)
+        (gemvTerms A x (fun v xj => v * xj)) (hbound _)
+      refine ⟨y', h1, by rw [h2, hsz], fun i hi => ?_⟩
+      rw [h3 i (by omega), hget i hi, Option.map_some, foldl_add_eq, gemvTerms_eq A x _ 0, hx,
+        sum_colVals_terms A.n A.col (fun j => x.getD j 0) (fun v xj => v * xj) 1
+          (fun v xj => by rw [one_mul]), hdense]
+    · have ha1' : (a == 1) = false := by simpa using ha1
+      simp only [ha1', Bool.false_eq_true, ↓reduceIte]
+      by_cases ham : a = -1
+      · simp only [ham, beq_self_eq_true, ↓reduceIte]
+        obtain ⟨y', h1, h2, h3⟩ := scatter_spec (fun yi t => yi - t) (applyB b y)
+          (gemvTerms A x (fun v xj => v * xj)) (hbound _)
+        refine ⟨y', h1, by rw [h2, hsz], fun i hi => ?_⟩
+        rw [h3 i (by omega), hget i hi, Option.map_some, foldl_sub_eq, gemvTerms_eq A x _ 0, hx,
+          sum_colVals_terms A.n A.col (fun j => x.getD j 0) (fun v xj => v * xj) 1
+            (fun v xj => by rw [one_mul]), hdense]
+        rw [one_mul, neg_one_mul, sub_eq_add_neg]
+      · have ham' : (a == -1) = false := by simpa using ham
+        simp only [ham', Bool.false_eq_true, ↓reduceIte]
+        obtain ⟨y', h1, h2, h3⟩ := scatter_spec (fun yi t => yi + t) (applyB b y)
+          (gemvTerms A x (fun v xj => a * v * xj)) (hbound _)
+        refine ⟨y', h1, by rw [h2, hsz], fun i hi => ?_⟩
+        rw [h3 i (by omega), hget i hi, Option.map_some, foldl_add_eq, gemvTerms_eq A x _ 0, hx,
+          sum_colVals_terms A.n A.col (fun j => x.getD j 0) (fun v xj => a * v * xj) a
+            (fun v xj => rfl), hdense]
+
+/-- non-vacuity of `gemvN_spec` -/
+example : ∃ y', exM.gemvN #[1, 1, 1] #[1, 2, 3] 2 (-1) = .ok y' ∧ y'.size = 3 :=
+  let ⟨y', h1, h2, _⟩ := gemvN_spec exM #[1, 1, 1] #[1, 2, 3] 2 (-1) exM_canonical rfl rfl
+  ⟨y', h1, h2⟩
+
+
+/-- [F] (commutative ring) transposed `gemv` (`A.t().gemv`), all fast paths, on a
+canonical matrix and vectors of matching length does not panic and returns
+`b·y + a·Aᵀ·x`. -/
+theorem gemvT_spec [CommRing α] [DecidableEq α] (A : Csc α) (y x : Array α) (a b : α)
+    (hA : Canonical A) (hx : x.size = A.m) (hy : y.size = A.n) :
+    ∃ y', A.gemvT y x a b = .ok y' ∧ y'.size = A.n ∧
+      ∀ j, j < A.n → y'[j]? =
+        some (b * y.getD j 0 + a * ∑ i ∈ Finset.range A.m, A.toDense i j * x.getD i 0) := by
+  have hsz : (applyB b y).size = A.n := by rw [applyB_size, hy]
+  have hget : ∀ j, j < A.n → (applyB b y)[j]? = some (b * y.getD j 0) := by
+    intro j hj
+    rw [applyB_get b y j (by omega), Array.getD_eq_getD_getElem?,
+      Array.getElem?_eq_getElem (by omega)]
+    rfl
+  unfold gemvT
+  by_cases ha0 : a = 0
+  · refine ⟨applyB b y, by simp [ha0]; rfl, hsz, fun j hj => ?_⟩
+    rw [hget j hj, ha0]; simp
+  · have ha0' : (a == 0) = false := by simpa using ha0
+    simp only [ha0', Bool.false_eq_true, ↓reduceIte, nzvalMatchesColptr_of_canonical hA, hx,
+      bne_self_eq_false]
+    have hupd : ∀ acc v xr : α,
+        (if (a == 1) = true then acc + (if (a == 1) = true then v * xr else if (a == -1) = true then v * xr else a * v * xr)
+         else if (a == -1) = true then acc - (if (a == 1) = true then v * xr else if (a == -1) = true then v * xr else a * v * xr)
+         else acc + (if (a == 1) = true then v * xr else if (a == -1) = true then v * xr else a * v * xr))
+        = acc + a * v * xr := by
+      intro acc v xr
+      by_cases h1 : a = 1
+      · simp [h1]
+      · by_cases hm : a = -1
+        · have : ¬ (-1 : α) = 1 := fun h => h1 (hm.trans h)
+          simp [hm, this, sub_eq_add_neg]
+        · simp [h1, hm]
+    have hmap := mapM_eq_ok (applyB b y).toList.zipIdx
+      (fun (p : α × Nat) => if p.2 < A.n then colDotM (A.col p.2) x
+        (fun (acc t : α) => if a == 1 then acc + t else if a == -1 then acc - t else acc + t)
+        (fun (v xr : α) => if a == 1 then v * xr else if a == -1 then v * xr else a * v * xr) p.1
+        else pure p.1)
+      (fun p => if p.2 < A.n then p.1 + a * ((A.col p.2).map (fun e => e.2 * x.getD e.1 0)).sum else p.1)
+      (by
+        intro p _
+        by_cases hp : p.2 < A.n
+        · simp only [hp, ↓reduceIte]
+          rw [colDotM_eq _ x _ _ p.1 0 (fun e he => by
+            have := (colOK_of_canonical hA p.2 hp).2 e he; omega)]
+          simp only [hupd]
+          rw [foldl_upd_add (A.col p.2) a (fun i => x.getD i 0) p.1]
+        · simp only [hp, ↓reduceIte]; rfl)
+    simp only [hmap]
+    refine ⟨_, rfl, by simp [hsz], fun j hj => ?_⟩
+    have hj' : j < (applyB b y).size := by omega
+    have hgj := hget j hj
+    rw [Array.getElem?_eq_getElem hj'] at hgj
+    simp only [Option.some.injEq] at hgj
+    simp only [List.getElem?_toArray, List.getElem?_map, List.getElem?_zipIdx, Array.getElem?_toList,
+      Array.getElem?_eq_getElem hj', Option.map_some, Nat.zero_add, hj, ↓reduceIte, hgj]
+    rw [sum_col_mul_eq (A.col j) (fun i => x.getD i 0) A.m (colOK_of_canonical hA j hj).2]
+    congr 3
+    apply Finset.sum_congr rfl
+    intro i _
+    rw [toDense_eq_sum_colVals]
+
+/-- non-vacuity of `gemvT_spec` -/
+example : ∃ y', exM.gemvT #[1, 1, 1] #[1, 2, 3] (-1) 0 = .ok y' ∧ y'.size = 3 :=
+  let ⟨y', h1, h2, _⟩ := gemvT_spec exM #[1, 1, 1] #[1, 2, 3] (-1) 0 exM_canonical rfl rfl
+  ⟨y', h1, h2⟩
+
+
+/-! ### get_entry / set_entry -/
+
+/-- [S] `get_entry` inside the bounds returns the stored value of the position, `none`
+when nothing is stored there (statement of the model function; canonical columns hold at
+most one entry per row). -/
+theorem getEntry_eq (M : Csc α) (row col : Nat) (hr : row < M.m) (hc : col < M.n) :
+    M.getEntry row col = .ok (((M.col col).find? (fun e => e.1 == row)).map (·.2)) := by
+  unfold getEntry
+  simp [hr, hc]
+  rfl
+
+/-- [S] `set_entry` / `get_entry` round trip on a canonical matrix, any scalar type:
+the call succeeds, the result is canonical with the same shape, every other position reads
+as before, and the written position reads back `v` — except that writing a zero to a
+position that is not stored changes nothing ("no new zeros": the matrix is returned
+unchanged and the position still reads `none`). -/
+theorem setEntry_getEntry [Zero α] [DecidableEq α] (M : Csc α) (row col : Nat) (v : α)
+    (hM : Canonical M) (hr : row < M.m) (hc : col < M.n) :
+    ∃ R, M.setEntry row col v = .ok R ∧ Canonical R ∧ R.m = M.m ∧ R.n = M.n ∧
+      (∀ i j, i < M.m → j < M.n → (i ≠ row ∨ j ≠ col) → R.getEntry i j = M.getEntry i j) ∧
+      R.getEntry row col =
+        (if M.getEntry row col = .ok none ∧ v = 0 then .ok none else .ok (some v)) ∧
+      (M.getEntry row col = .ok none ∧ v = 0 → R = M) := by
+  obtain ⟨hf, hcol⟩ := setCol_eq_upsert (M.col col) row v
+  -- the column after the update, in both branches of the code
+  have hnew : ∀ R, R = ofCols M.m M.n ((List.range M.n).map (fun j =>
+      if j == col then (upsert row v (M.col col)).2 else M.col j)) →
+      Canonical R ∧ R.m = M.m ∧ R.n = M.n ∧
+      (∀ i j, i < M.m → j < M.n → (i ≠ row ∨ j ≠ col) → R.getEntry i j = M.getEntry i j) ∧
+      R.getEntry row col = .ok (some v) := by
+    intro R hR
+    subst hR
+    have hcolj : ∀ j, j < M.n → (ofCols M.m M.n ((List.range M.n).map (fun j =>
+        if j == col then (upsert row v (M.col col)).2 else M.col j))).col j =
+        if j = col then (upsert row v (M.col col)).2 else M.col j := by
+      intro j hj
+      rw [col_ofCols _ _ _ j (by simpa using hj)]
+      simp
+    refine ⟨?_, rfl, rfl, ?_, ?_⟩
+    · apply canonical_ofCols
+      · simp
+      · intro c hc'
+        simp only [List.mem_map, List.mem_range] at hc'
+        obtain ⟨j, hj, rfl⟩ := hc'
+        by_cases hjc : j = col
+        · subst hjc
+          simp only [beq_self_eq_true, ↓reduceIte]
+          exact colOK_upsert M.m row v _ hr (colOK_of_canonical hM j hj)
+        · have : (j == col) = false := by simpa using hjc
+          simp only [this, Bool.false_eq_true, ↓reduceIte]
+          exact colOK_of_canonical hM j hj
+    · intro i j hi hj hne
+      rw [getEntry_eq _ i j (by simpa using hi) (by simpa using hj), getEntry_eq M i j hi hj,
+        hcolj j hj]
+      by_cases hjc : j = col
+      · subst hjc
+        have hir : i ≠ row := by
+          rcases hne with h | h
+          · exact h
+          · exact absurd rfl h
+        simp only [↓reduceIte]
+        rw [find_upsert_other row v (M.col j) i hir]
+      · simp only [hjc, ↓reduceIte]
+    · rw [getEntry_eq _ row col (by simpa using hr) (by simpa using hc), hcolj col hc]
+      simp only [↓reduceIte]
+      rw [find_upsert_self]
+      rfl
+  unfold setEntry
+  simp only [hr, hc, decide_true, Bool.and_self, Bool.not_true, Bool.false_eq_true, ↓reduceIte]
+  by_cases hfound : (upsert row v (M.col col)).1 = true
+  · rw [hfound] at hf
+    rw [hf] at hcol ⊢
+    simp only [↓reduceIte] at hcol ⊢
+    rw [hcol]
+    obtain ⟨h1, h2, h3, h4, h5⟩ := hnew _ rfl
+    obtain ⟨w, hw⟩ := find_some_of_upsert_true row v (M.col col) hfound
+    have hget : M.getEntry row col = .ok (some w) := by
+      rw [getEntry_eq M row col hr hc, hw]; rfl
+    refine ⟨_, rfl, h1, h2, h3, h4, ?_, ?_⟩
+    · rw [h5, hget]; simp
+    · rw [hget]; intro h; simp at h
+  · have hfound' : (upsert row v (M.col col)).1 = false := by simpa using hfound
+    rw [hfound'] at hf
+    rw [hf] at hcol ⊢
+    simp only [Bool.false_eq_true, ↓reduceIte] at hcol ⊢
+    have hget : M.getEntry row col = .ok none := by
+      rw [getEntry_eq M row col hr hc,
+        find_none_of_upsert_false row v (M.col col) (colOK_of_canonical hM col hc).1 hfound']
+      rfl
+    by_cases hv : v = 0
+    · subst hv
+      simp only [beq_self_eq_true, ↓reduceIte]
+      exact ⟨M, rfl, hM, rfl, rfl, fun _ _ _ _ _ => rfl, by rw [hget]; simp, fun _ => rfl⟩
+    · have hv' : (v == 0) = false := by simpa using hv
+      simp only [hv', Bool.false_eq_true, ↓reduceIte]
+      rw [hcol]
+      obtain ⟨h1, h2, h3, h4, h5⟩ := hnew _ rfl
+      refine ⟨_, rfl, h1, h2, h3, h4, ?_, ?_⟩
+      · rw [h5]; simp [hv]
+      · intro h; exact absurd h.2 hv
+
+/-- non-vacuity of `setEntry_getEntry`: insertion of a new entry into `exM` -/
+example : ∃ R, exM.setEntry 1 0 9 = .ok R ∧ Canonical R ∧ R.getEntry 1 0 = .ok (some 9) := by
+  obtain ⟨R, h1, h2, _, _, _, h3, _⟩ := setEntry_getEntry exM 1 0 9 exM_canonical (by decide) (by decide)
+  refine ⟨R, h1, h2, ?_⟩
+  rw [h3]
+  have : ¬ ((9 : Int) = 0) := by decide
+  simp [this]
+
+
+/-! ### dropzeros -/
+
+/-- [F] (additive monoid) `dropzeros` keeps shape and canonical form, leaves the dense
+meaning unchanged and stores no zero afterwards. -/
+theorem dropzeros_spec [AddMonoid α] [DecidableEq α] (M : Csc α) (hM : Canonical M) :
+    Canonical M.dropzeros ∧ M.dropzeros.m = M.m ∧ M.dropzeros.n = M.n ∧
+      (∀ i j, j < M.n → M.dropzeros.toDense i j = M.toDense i j) ∧
+      (∀ j, j < M.n → ∀ e ∈ M.dropzeros.col j, e.2 ≠ 0) := by
+  have hcol : ∀ j, j < M.n → M.dropzeros.col j = (M.col j).filter (fun e => e.2 != 0) := by
+    intro j hj
+    unfold dropzeros cols
+    rw [col_ofCols _ _ _ j (by simpa using hj)]
+    simp
+  refine ⟨?_, rfl, rfl, ?_, ?_⟩
+  · unfold dropzeros cols
+    apply canonical_ofCols
+    · simp
+    · intro c hc
+      simp only [List.mem_map, List.mem_range] at hc
+      obtain ⟨_, ⟨j, hj, rfl⟩, rfl⟩ := hc
+      exact colOK_filter _ _ _ (colOK_of_canonical hM j hj)
+  · intro i j hj
+    rw [toDense_eq_sum_colVals, toDense_eq_sum_colVals, hcol j hj]
+    generalize M.col j = c
+    induction c with
+    | nil => rfl
+    | cons e t ih =>
+      by_cases he : e.2 = 0
+      · have : (e.2 != 0) = false := by simp [he]
+        rw [List.filter_cons, this, if_neg (by simp), colVals_cons]
+        by_cases hi : e.1 = i <;> simp [hi, ih, he]
+      · have : (e.2 != 0) = true := by simp [he]
+        rw [List.filter_cons, this, if_pos rfl, colVals_cons, colVals_cons]
+        by_cases hi : e.1 = i <;> simp [hi, ih]
+  · intro j hj e he
+    rw [hcol j hj] at he
+    simpa using (List.mem_filter.mp he).2
+
+/-- non-vacuity of `dropzeros_spec` -/
+example : Canonical exM.dropzeros := (dropzeros_spec exM exM_canonical).1
 
 end Clarabel.C16
